@@ -169,3 +169,7 @@ class Scheduler(object):
         finally:
             _active[0] = None
         return self
+
+
+import atexit
+atexit.register(uninstall)
